@@ -40,6 +40,28 @@ static RunPlan gen_parityinv(uint64_t seed, int tier)
 			for (auto& o : gen_mutations(rng, p.cfg, (int)rng.range(1, 6))) p.ops.push_back(o);
 		if (rng.chance(1, 3))
 			for (auto& o : gen_idiom(rng, p.cfg, r)) p.ops.push_back(o);
+		if (p.cfg.disks.size() >= 2 && rng.chance(1, 6)) {
+			// a silent error met by sync itself, in stripes where another disk has just lost a file (or got a changed one): sync
+			// repairs the block in memory from the old parity and must still write the parity of the new recorded state
+			unsigned bs = p.cfg.block_size();
+			int64_t d = (int64_t)rng.below(p.cfg.disks.size());
+			int64_t d2 = (d + 1 + (int64_t)rng.below(p.cfg.disks.size() - 1)) % (int64_t)p.cfg.disks.size();
+			std::string a = strf("sil%d/kept", r), b = strf("sil%d/gone", r);
+			p.ops.push_back(Json::obj().set("k", "create").set("d", d).set("name", a).set("size", rng.range(2, 5) * bs - (rng.chance(1, 3) ? rng.range(1, bs - 1) : 0)).set("seed", rng.next() >> 1));
+			p.ops.push_back(Json::obj().set("k", "create").set("d", d2).set("name", b).set("size", rng.range(2, 5) * bs - (rng.chance(1, 3) ? rng.range(1, bs - 1) : 0)).set("seed", rng.next() >> 1));
+			CmdSpec full;
+			full.cmd = "sync";
+			full.opts = { "-E", "-Z" };
+			p.ops.push_back(op_cmd(gen_sched(rng, full)));
+			p.ops.push_back(Json::obj().set("k", "silent").set("d", d).set("sub", a).set("at", rng.next() >> 8));
+			switch (rng.below(3)) {
+			case 0: p.ops.push_back(Json::obj().set("k", "delete").set("d", d2).set("sub", b)); break;
+			case 1: p.ops.push_back(Json::obj().set("k", "overwrite").set("d", d2).set("sub", b).set("size", rng.range(1, 5) * bs).set("seed", rng.next() >> 1).set("new_inode", (int)rng.below(2))); break;
+			default: p.ops.push_back(Json::obj().set("k", "touch").set("d", d2).set("sub", b)); break;
+			}
+			p.ops.push_back(op_cmd(gen_sched(rng, full)));
+			if (rng.chance(1, 2)) { CmdSpec fx; fx.cmd = "fix"; fx.opts = { "-e" }; p.ops.push_back(op_cmd(gen_sched(rng, fx))); }
+		}
 		if (rng.chance(1, 3)) p.ops.push_back(Json::obj().set("k", "clock").set("adv", rng.range(1, 40) * 86400));
 		CmdSpec s;
 		switch (rng.below(10)) {
